@@ -11,7 +11,7 @@ let wres_str r =
 
 let status_str s =
   match s with
-  | Clean -> "clean" | TornTail -> "torn" | Damaged -> "damaged" | Panic -> "panic"
+  | Clean -> "clean" | TornTail -> "torn" | Damaged -> "damaged"
   | OutOfFuel -> "fuel"
 
 let entry_str (e : wentry) =
